@@ -352,6 +352,35 @@ def link_local_twins(r):
     return dict(cfg=tuple(cfg), insts=[(1, conv.s_service(svc), [])], draws=[0] * 8, events=events, end=t + 4 * T, rev=r.random() < 0.3, fuel=20000)
 
 
+def wildcard_instance(r):
+    """A server instance CONFIGURED with wildcard ids (instance 0xFFFF and / or major version 0xFF) next to a concrete one:
+    Subscribes, StopSubscribes and FindServices with concrete ids - every answer echoes the ids of the REQUEST."""
+    from . import conv
+    cfg = list(timings(r))
+    cfg[6] = T
+    cfg[11] = r.choice([0, 5 * MS])
+    wild = C.Service(0x1111, r.choice([0xFFFF, 0xFFFF, 3]), r.choice([0xFF, 0xFF, 1]), 7, eventgroups=frozenset({5, 6}))
+    if wild.instance_id != 0xFFFF and wild.major_version != 0xFF:
+        wild = C.Service(0x1111, 0xFFFF, 1, 7, eventgroups=frozenset({5, 6}))
+    conc = C.Service(0x2222, 1, 2, 0, eventgroups=frozenset({9}))
+    peers = {a: Peer(a) for a in (1, 2)}
+    events = [(0, (1, [17, 1])), (0, (1, [17, 2])), (0, (1, [0]))]
+    t = T
+    for _ in range(r.randint(2, 6)):
+        a = r.choice([1, 2])
+        c = r.random()
+        if c < 0.7:
+            req = C.Service(0x1111, r.choice([0x42, 0x43, 1, wild.instance_id]), r.choice([9, 1, wild.major_version]))
+            es = [sub_entry(r, req, r.choice([5, 6, 77]), r.choice([3, 0xFFFFFF, 0]), r.choice([0, 1]), 1, ep_n=a)]
+            if r.random() < 0.3:
+                es.append(sub_entry(r, conc, 9, 3, 0, 1, ep_n=a))
+        else:
+            es = [C.Service(0x1111, r.choice([0x42, 0xFFFF]), r.choice([9, 0xFF])).create_find_entry(3)]
+        events.append((t, (0, a, False, peers[a].datagram(es, False))))
+        t += r.choice([1, T // 4, T])
+    return dict(cfg=tuple(cfg), insts=[(1, conv.s_service(wild), []), (2, conv.s_service(conc), [])], draws=[0] * 8, events=events, end=t + 4 * T, rev=r.random() < 0.3, fuel=20000)
+
+
 def defer_some_api(r, events, p=0.15):
     """An application call that is the only call of its instant is made, now and then, one to three loop iterations INTO the
     instant (ApiSoon, codes 22-24): behind whatever the datagrams of that instant trigger."""
